@@ -17,21 +17,21 @@ P = {
  'C03': ('proof', '6 C03, 12.1', 'spec congruence theorem + engine corollary of the refinement + metamorphic differential',
          'Theorems: inserting (?=) before or after any sub-expression at any depth (inductive relation Inj / InjStar; the one excluded position - wrapping the alternation body of a look-behind - is shown to really differ and then no longer compiles) leaves the reference semantics, the group numbering and the reference search unchanged, unconditionally; C03_inject_stage: a pattern and its injected variants give identical results whenever each is handed to the automata engine as a whole or lies in the proved engine stage (machine-checked example ab vs a(?=)b). Engine side outside the stage: implementation on P vs inject(P) on all explored cases (metamorphic), both tied to the model.'),
  'C04': ('other', '6 C04', 'differential against the regex crate + model tie',
-         'The regex crate is not modelled: the cross-crate agreement holds on the explored inputs only. Theorems: the model API layer over any search equals the statement-level algorithms (C08-C11). Two correspondences against the same model (fancy-regex <-> model, regex crate <-> model) plus the direct differential on every API call.'),
+         'The regex crate is not modelled: the cross-crate agreement holds on the explored inputs only. Theorems: the model API layer over any search equals the statement-level algorithms (C08-C11). C04b: the text to_str hands to the regex crate re-parses (parser model) to the very tree it was printed from, for the whole fragment the parser produces (every quantifier spelling, arbitrary nesting; counterexample theorems for what lies outside: multi-character literals - a precedence defect of to_str reachable only from a hand-built Expr, not from a pattern). C08c/C11b: on the hand-off path find_iter, captures_iter, split and replacen of the model equal the iteration of the reference search (equalities, no error branch). Two correspondences against the same model (fancy-regex <-> model, regex crate <-> model) plus the direct differential on every API call.'),
  'C05': ('proof', '6 C05, 12.1', 'invariant by induction over VM steps + refinement corollary + UTF-8 layer theorems + exploration',
          'Theorems: no instruction of the model VM panics from a state satisfying the invariant where the structured machine is defined (exact panic conditions for EndAtomic / FailNegativeLookAround / Delegate stated); C05_search_never_panics and C05_offsets_valid: in the proved engine stage a search never panics and every reported slot is <= len with start <= end; UTF-8 layer (C05b): boundaries of encode are exactly the character offsets, next_utf8 / prev_codepoint_ix / GoBack move by whole characters, slices between character positions never panic, literals are prefix-free; End caps the start into [pos, end]; API-layer slices in range given a well-formed search. Entry points explored under catch_unwind on the unrestricted grammar with 1-4 byte characters; a dying or hanging harness process is reported with the pattern it was working on.'),
  'C06': ('proof', '6 C06, 12.2', 'totality/no-panic theorems on the parser model + parser correspondence + exploration with resource meters',
-         'The recursive-descent parser is inside the model (Model/Parse.lean, byte-level, explicit panic sites). Theorems for every string: C06_parse_no_panic, C06_error_pos (reported position <= length), C06_depth (tree depth bounded by MAX_RECURSION), C06_parse_total (Ok or Err, the model never runs out of fuel), bounds for each leaf scanner; analyzer arithmetic saturates below usize::MAX; group count linear. Parser tie: ~2M (quick) / ~15M (thorough) patterns - malformed stream, all engine spaces, respellings, escape outputs, multi-byte fillers, numeric-boundary probes - tree / back-reference set / names or error kind + byte position, Rust vs Lean. Resource clause (time, allocation, native stack) is measured on probes, not proved.'),
+         'The recursive-descent parser is inside the model (Model/Parse.lean, byte-level, explicit panic sites). Theorems for every string: C06_parse_no_panic, C06_error_pos (reported position <= length), C06_depth (tree depth bounded by MAX_RECURSION), C06_parse_total (Ok or Err, the model never runs out of fuel), bounds for each leaf scanner; analyzer arithmetic saturates below usize::MAX; group count linear; C06c: the compile step never reaches the "attempting to format hard expr" panic of to_str - every delegated piece of every program build emits, and the hand-off text, print (induction over the compiler; subroutine calls are kept away by the reference check, not by hardness: theorem). Parser tie: ~2M (quick) / ~15M (thorough) patterns - malformed stream, all engine spaces, respellings, escape outputs, multi-byte fillers, numeric-boundary probes - tree / back-reference set / names or error kind + byte position, Rust vs Lean. Resource clause (time, allocation, native stack) is measured on probes, not proved.'),
  'C07': ('proof', '6 C07, 12.1', 'lock-step simulation theorem + termination from the refinement + correspondence of run counters',
          'Theorems (any program, any text): a run with limit L is the limit error or the unlimited answer; every L >= the backtracks of the unlimited run gives the unlimited answer; a limit error means the limit was exceeded. In the proved engine stage (see C01): C07_search_terminates (some amount of fuel is never exhausted) and C07_steps_bounded (the number of executed instructions is bounded independently of fuel and limit) - total correctness. Tie: outcome class and step/backtrack/depth counters, implementation vs model, under a ladder of limits up to usize::MAX; every entry point under every limit gives the same outcome class; a shard that does not finish is reported.'),
  'C08': ('proof', '6 C08', 'state-machine theorems over an arbitrary search oracle + correspondence',
-         "Theorems over an arbitrary oracle: C08_eq_spec - the iterator model (Matches::next, CaptureMatches::next) yields exactly the statement's iteration (also with captures, and up to the first error); under pos <= start <= end the sequence is strictly increasing and non-overlapping; nothing follows an error; termination within len+2 calls; the skipped-empty flag. Tie in two forms (over the implementation's own search answers; end to end)."),
+         "Theorems over an arbitrary oracle: C08_eq_spec - the iterator model (Matches::next, CaptureMatches::next) yields exactly the statement's iteration (also with captures, and up to the first error); under pos <= start <= end the sequence is strictly increasing and non-overlapping; nothing follows an error; termination within len+2 calls; the skipped-empty flag. C08c composes this with the engine theorems: for every pattern string of the proved stage (and every hand-off pattern) find_iter of the model engine IS the statement's iteration of the reference search, up to one trailing resource stop (the reference oracle is proved well-formed). Tie in two forms (over the implementation's own search answers; end to end)."),
  'C09': ('proof', '6 C09', 'definitional equalities + iterator theorem + exploration',
-         'Theorems: captures_iter and find_iter yield the same spans for every captures oracle (after F2); find is the span of captures in the model. The Wrap path\'s separate regex-automata calls are outside the model and covered by exploration of all seven entry points.'),
+         'Theorems: captures_iter and find_iter yield the same spans for every captures oracle (after F2); find is the span of captures in the model; C08c/C11b: captures_iter of the model engine yields reference captures whose spans are the reference iteration, entry-point coherence on the engine (C09_entry_points_engine). The Wrap path\'s separate regex-automata calls are outside the model and covered by exploration of all seven entry points.'),
  'C10': ('proof', '6 C10', 'state-machine theorems over an arbitrary match sequence + correspondence',
-         'Theorems: split yields the statement\'s pieces (one more than matches) for every well-formed oracle; splitn n yields the first n-1 and the remainder; n = 0 yields nothing; fused.'),
+         'Theorems: split yields the statement\'s pieces (one more than matches) for every well-formed oracle; splitn n yields the first n-1 and the remainder; n = 0 yields nothing; fused; C10_split_is_reference (C08c): for the model engine, split = the pieces between the matches of the reference iteration (proved stage and hand-off path).'),
  'C11': ('proof', '6 C11', 'theorems over an arbitrary match sequence and replacer + correspondence',
-         'Theorems: replacen equals the statement\'s rewrite of the first n match ranges; borrowed iff no item; fast and slow paths coincide for constant replacers when the iterators agree; first error is returned.'),
+         'Theorems: replacen equals the statement\'s rewrite of the first n match ranges; borrowed iff no item; fast and slow paths coincide for constant replacers when the iterators agree; first error is returned; C11b: replacen of the model engine = the rewrite of the first n matches of the REFERENCE iteration with the replacer applied to reference captures (text = the real UTF-8 encoding, boundaries proved), borrowed iff that iteration is empty, never a panic; with a trailing resource stop the exact outcome is stated.'),
  'C12': ('proof', '6 C12', 'round-trip and decision theorems on the expander model, specification tokenizer = code + exhaustive correspondence',
          'Theorems: expansion(escape s) = s for both expanders, $$ -> $, verbatim copy without the substitution character, check soundness; C12b: the documented template syntax written as a specification tokenizer equals the expander of the code step by step for every template (C12_steps_eq_spec), token corollaries, compositionality. Tie: all templates to length 4/5 over the 14-character alphabet.'),
  'C13': ('proof', '6 C13', 'structural-induction theorems on the reference semantics + correspondence of analysis facts',
